@@ -10,10 +10,12 @@ package main
 
 import (
 	"bytes"
+	"context"
 	"crypto/rand"
 	"encoding/hex"
 	"errors"
 	"fmt"
+	"io"
 	"net"
 	"os"
 	"sort"
@@ -374,5 +376,53 @@ func (r *vfRecConn) SetDeadline(time.Time) error      { return nil }
 func (r *vfRecConn) SetReadDeadline(time.Time) error  { return nil }
 func (r *vfRecConn) SetWriteDeadline(time.Time) error { return nil }
 func (r *vfRecConn) Close() error                     { return nil }
+func (r *vfRecConn) LocalAddr() net.Addr              { return vfClientAddr }
+func (r *vfRecConn) RemoteAddr() net.Addr             { return vfClientAddr }
+
+func (r *vfRecConn) Read([]byte) (int, error) { return 0, io.EOF }
+
+// vfFlight runs the real client transport against a recording connection and returns the bytes it
+// writes as its first flight (one entry per Write) together with the parameters it registers with.
+func vfFlight(s *vfStation, transport string, prefixID, flush int32, randPort bool, secret []byte) (writes [][]byte, params proto.Message, err error) {
+	tt := vfTT(transport)
+	ckeys, err := core.GenSharedKeys(uint(core.CurrentClientLibraryVersion()), secret, tt)
+	if err != nil {
+		return nil, nil, err
+	}
+	rec := &vfRecConn{}
+	switch transport {
+	case "min":
+		ct := &min.ClientTransport{}
+		ct.SetParams(&pb.GenericTransportParams{RandomizeDstPort: proto.Bool(randPort)})
+		ct.Prepare(context.Background(), nil)
+		params, _ = ct.GetParams()
+		ct.PrepareKeys(s.pub, secret, ckeys.TransportReader)
+		_, err = ct.WrapConn(rec)
+	case "prefix":
+		ct := &prefix.ClientTransport{}
+		if err = ct.SetParams(&prefix.ClientParams{PrefixID: prefixID, RandomizeDstPort: randPort, FlushPolicy: flush}); err != nil {
+			return
+		}
+		ct.Prepare(context.Background(), nil)
+		params, _ = ct.GetParams()
+		ct.PrepareKeys(s.pub, secret, ckeys.TransportReader)
+		_, err = ct.WrapConn(rec)
+	case "obfs4":
+		ct := &obfs4.ClientTransport{}
+		ct.SetParams(&pb.GenericTransportParams{RandomizeDstPort: proto.Bool(randPort)})
+		ct.Prepare(context.Background(), nil)
+		params, _ = ct.GetParams()
+		if err = ct.PrepareKeys(s.pub, secret, ckeys.TransportReader); err != nil {
+			return
+		}
+		ct.WrapConn(rec) // fails after writing the handshake: nobody answers
+		if len(rec.writes) == 0 {
+			err = fmt.Errorf("obfs4 client wrote nothing")
+		}
+	default:
+		err = fmt.Errorf("unknown transport %q", transport)
+	}
+	return rec.writes, params, err
+}
 
 var vfClientAddr = &net.TCPAddr{IP: net.IPv4(198, 51, 100, 7), Port: 40123}
